@@ -654,6 +654,8 @@ class Interp:
             if isinstance(v, list):
                 return TypeRef("list")
             raise AnalysisError("minieval: type(x)")
+        if name in env and callable(env[name]) and not isinstance(env[name], (TypeRef, NewType)):
+            return env[name](*args, **kwargs)   # a callable handed in as an argument
         if name in self.globals and callable(self.globals[name]):
             return self.globals[name](*args, **kwargs)
         if name in self.mod_funcs and isinstance(f, ast.Name):
